@@ -383,6 +383,17 @@ class BasePID(metaclass=ABCMeta):
         valid : bool
             True if the lattice is self-consistent, False otherwise.
         """
+        self._compute()
+
+        # pre-assessed `reds` / `pis` may contradict one another: ensure that
+        # the mobius inversion holds
+        for node in self._lattice:
+            red = self.get_red(node)
+            parts = sum(self.get_pi(n) for n in self._lattice.descendants(node, include=True))
+            if not np.isnan(red) and not np.isnan(parts):
+                if not np.isclose(red, parts, atol=1e-5, rtol=1e-5):
+                    return False
+
         return True
 
     @property
